@@ -70,7 +70,11 @@ func (x *Exec) binop(st *State, fr *Frame, in *ssa.BinOp) Val {
 		case isInterface(t):
 			r = Eq(x.term(a), x.term(b))
 		default:
-			if _, isPtr := t.Underlying().(*types.Pointer); isPtr {
+			_, isPtr := t.Underlying().(*types.Pointer)
+			if b, ok := t.Underlying().(*types.Basic); ok && b.Kind() == types.UnsafePointer {
+				isPtr = true
+			}
+			if isPtr {
 				if cv, ok := in.X.(*ssa.Const); ok && cv.Value == nil {
 					r = "(= (p_reg " + x.ptrTermCmp(b) + ") 0)"
 				} else if cv, ok := in.Y.(*ssa.Const); ok && cv.Value == nil {
@@ -164,7 +168,12 @@ func (x *Exec) binop(st *State, fr *Frame, in *ssa.BinOp) Val {
 			return Val{S: x.S.Define("i", "Int", wrapInt(raw, rt)), T: rt}
 		}
 		r := x.S.Define("i", "Int", raw)
-		x.oblige(st, fr, in, "ovf", inRange(r, rt), "signed integer overflow")
+		if x.contract != nil && x.contract.OvfCheck {
+			x.oblige(st, fr, in, "ovf", inRange(r, rt), "signed integer overflow")
+		} else {
+			x.assume(st, inRange(r, rt))
+			x.note("A-ovf: signed integer arithmetic is assumed not to overflow (overflow obligations are generated only for units marked ovfcheck: the decoders)")
+		}
 		return Val{S: r, T: rt}
 	}
 	switch in.Op {
@@ -340,7 +349,11 @@ func (x *Exec) unop(st *State, fr *Frame, in *ssa.UnOp) Val {
 			return Val{S: wrapInt("(- "+v+")", t), T: t}
 		}
 		r := x.S.Define("i", "Int", "(- "+v+")")
-		x.oblige(st, fr, in, "ovf", inRange(r, t), "signed negation overflow")
+		if x.contract != nil && x.contract.OvfCheck {
+			x.oblige(st, fr, in, "ovf", inRange(r, t), "signed negation overflow")
+		} else {
+			x.assume(st, inRange(r, t))
+		}
 		return Val{S: r, T: t}
 	case token.XOR:
 		v := x.term(x.value(fr, st, in.X))
@@ -454,8 +467,13 @@ func (x *Exec) makeSlice(st *State, fr *Frame, in *ssa.MakeSlice) Val {
 	if sz == 0 {
 		sz = 1
 	}
-	x.oblige(st, fr, in, "make", And("(<= 0 "+l+")", "(<= "+l+" "+c+")", fmt.Sprintf("(<= (* %s %d) %s)", c, sz, maxSliceElems)),
-		"makeslice: len/cap out of range")
+	if x.allocBound != nil {
+		x.oblige(st, fr, in, "make", And("(<= 0 "+l+")", "(<= "+l+" "+c+")", fmt.Sprintf("(<= (* %s %d) %s)", c, sz, maxSliceElems)),
+			"makeslice: len/cap out of range")
+	} else {
+		x.oblige(st, fr, in, "make", And("(<= 0 "+l+")", "(<= "+l+" "+c+")"), "makeslice: negative len or len > cap")
+		x.assume(st, fmt.Sprintf("(<= (* %s %d) %s)", c, sz, maxSliceElems))
+	}
 	if x.allocBound != nil && fr != nil {
 		sc := &SpecCtx{x: x, st: st, old: x.entry, vars: x.rootArgs, fr: nil, pkg: x.root.Pkg.Pkg}
 		if fr.fn == x.root {
